@@ -139,6 +139,12 @@ def nvarOf (o : Output) : VarKind → Nat
   | .grav => 1 + o.ndim
   | .rt => o.rtVars.length
 
+/-- on-disk type of variable `iv` of a mesh file: the descriptor's for hydro, double otherwise -/
+def varTyOf (o : Output) (k : VarKind) (iv : Nat) : Ty :=
+  match k with
+  | .hydro => ((o.hydroVars.getD iv ("", .d)).2)
+  | _ => .d
+
 def cellVals (oc : Oct) : VarKind → List (List Rat)
   | .hydro => oc.hydro
   | .grav => oc.grav
@@ -160,7 +166,8 @@ def varBlock (o : Output) (k : VarKind) (cpu l d : Nat) : File :=
   (if nc == 0 then [] else
     (List.range o.twotondim).flatMap fun ind =>
       (List.range (nvarOf o k)).map fun iv =>
-        recD (lst.map fun oc => ((cellVals oc k).getD ind []).getD iv 0 + poison))
+        -- every variable is written with the type its descriptor declares (doubles in practice; an int32 flag is legal)
+        (⟨varTyOf o k iv, nc, lst.map fun oc => ((cellVals oc k).getD ind []).getD iv 0 + poison⟩ : Rec))
 
 def varFile (o : Output) (k : VarKind) (cpu : Nat) : File :=
   varHeader o k ++ (levels o).flatMap fun l => (domains o).flatMap fun d => varBlock o k cpu l d
